@@ -4,7 +4,8 @@
    (owner pid check, thread set first, process set under sig_lock if nothing was woken),
    iv_signal_event (clear `active` -- under sig_lock for process-wide interests -- then the user handler),
    iv_signal_register / iv_signal_unregister (under sig_lock with all signals blocked; sigaction on the
-   0 <-> 1 transitions of total_num_interests; hand-off of an active exclusive interest to its OWN tree).
+   0 <-> 1 transitions of total_num_interests; hand-off of an active exclusive interest to its own tree and,
+   since the fix of D5, from a thread tree that has nobody left on to the process tree -- handoff_wake).
    The two AVL trees are one list sorted by iv_signal_compare, filtered by scope (C16 justifies the
    sorted-list view of the tree).  sig_lock is explicit, so atomicity is a consequence of the lock
    discipline and not an assumption.  No proofs in this file. *)
@@ -136,7 +137,16 @@ Definition quiet_thread (t : Z) (l : list irec) : bool :=
 
 Definition do_post (s : state) (id : Z) : state := with_regs s (upd_rec id set_post (regs s)).
 
-Definition step (s : state) (l : label) : option state :=
+(* iv_signal_unregister, hand-off of an active exclusive interest: its own tree first; since the fix of D5
+   (fixed = true) a this-thread interest falls back to the process-wide tree when its thread's tree has nobody
+   for the signal, like iv_signal_handler does.  fixed = false is the code before that fix. *)
+Definition handoff_wake (fixed : bool) (r : irec) (rest : list irec) : list Z :=
+  match wake_plan (scope_of r) (i_sig r) rest with
+  | [] => if fixed && i_tt r then wake_plan None (i_sig r) rest else []
+  | p => p
+  end.
+
+Definition step_gen (fixed : bool) (s : state) (l : label) : option state :=
   match l with
   | LLock t =>
       match lock s with
@@ -186,7 +196,7 @@ Definition step (s : state) (l : label) : option state :=
                         disp := if last then upd (disp s) (i_sig r) false else disp s;
                         owner := owner s; lock := lock s;
                         stg := if negb last && i_excl r && i_active r
-                               then upd (stg s) t (SUnreg (wake_plan (scope_of r) (i_sig r) rest))
+                               then upd (stg s) t (SUnreg (handoff_wake fixed r rest))
                                else stg s |}
               else None
             else None
@@ -240,13 +250,21 @@ Definition step (s : state) (l : label) : option state :=
   | LBlock t => if is_idle (stg s t) && quiet_thread t (regs s) then Some s else None
   end.
 
-Fixpoint run (s : state) (ls : list label) : option state :=
+(* the current code *)
+Notation step := (step_gen true).
+
+Fixpoint run_gen (fixed : bool) (s : state) (ls : list label) : option state :=
   match ls with
   | [] => Some s
-  | l :: r => match step s l with Some s' => run s' r | None => None end
+  | l :: r => match step_gen fixed s l with Some s' => run_gen fixed s' r | None => None end
   end.
 
-Definition accepts (ls : list label) : bool := match run init ls with Some _ => true | None => false end.
+Notation run := (run_gen true).
+
+Definition accepts_gen (fixed : bool) (ls : list label) : bool :=
+  match run_gen fixed init ls with Some _ => true | None => false end.
+
+Definition accepts (ls : list label) : bool := accepts_gen true ls.
 
 (* position of the first rejected label (for the driver) *)
 Fixpoint reject_pos (s : state) (ls : list label) (k : nat) : option nat :=
